@@ -266,3 +266,36 @@ package cbcmac
 //@   assert after call Write#1: ghost(clen, c) == SL && (SL > 0 ==> c.nx == NXF) && (forall j :: 0 <= j && j < SL ==> ghost(cmsg, c)[j] == SA[SO + j])
 //@   apply after call Write#1: cbc_ext16(K, ZEROARR(), ghost(cmsg, c), 0, SA, SO, (SL - NXF) / 16)
 //@   apply after call Write#1: cbc_ext8(K, ZEROARR(), ghost(cmsg, c), 0, SA, SO, (SL - NXF) / 8)
+
+// ---- one-bit shifts of a byte string (big-endian bit order)
+//@ func shiftLeft property C19
+//@   ensures result == old(x[0]) / 128 || len(x) == 0
+//@   ensures len(x) == 0 ==> result == 0
+//@   ensures forall j :: 0 <= j && j < len(x) - 1 ==> x[j] == (old(x[j]) * 2) % 256 + old(x[j + 1]) / 128
+//@   ensures len(x) > 0 ==> x[len(x) - 1] == (old(x[len(x) - 1]) * 2) % 256
+//@   modifies x[0..len(x)]
+//@   loop 1 invariant -1 <= i && i < len(x) && msb <= 1
+//@   loop 1 invariant i < len(x) - 1 ==> msb == old(x[i + 1]) / 128
+//@   loop 1 invariant i == len(x) - 1 ==> msb == 0
+//@   loop 1 invariant forall j :: 0 <= j && j <= i ==> x[j] == old(x[j])
+//@   loop 1 invariant forall j :: i < j && j < len(x) - 1 ==> x[j] == (old(x[j]) * 2) % 256 + old(x[j + 1]) / 128
+//@   loop 1 invariant i < len(x) - 1 ==> x[len(x) - 1] == (old(x[len(x) - 1]) * 2) % 256
+//@   loop 1 invariant onlychanged(x)
+//@   loop 1 decreases i + 1
+
+// doubling in GF(2^(8*bs)): shift left by one bit and reduce with R_128 = 0x87 / R_64 = 0x1B
+//@ pred dblok(d, s, bs) := (forall j :: 0 <= j && j < bs - 1 ==> d[j] == (s[j] * 2) % 256 + s[j + 1] / 128)
+//@+  && d[bs - 1] == bxor8((s[bs - 1] * 2) % 256, (s[0] / 128) * ite(bs == 16, 135, 27))
+
+//@ func NewCMAC property C19
+//@   config bs in 8,16
+//@   requires b != nil && BS(id(b)) == bs
+//@   panics iff size <= 0 || size > bs
+//@   let K := id(b)
+//@   let L0 := ENC(K, BLK(ZEROARR(), 0, bs))
+//@   ensures cinv(result, bs) && ghost(clen, result) == 0 && result.size == size && id(result.b) == K
+//@   ensures dblok(arr(result.k1), L0, bs)
+//@   ensures dblok(arr(result.k2), arr(result.k1), bs)
+//@   ghostset clen[result] := 0
+//@   fresh result
+//@   modifies nothing
